@@ -31,6 +31,14 @@ CHECKS = {
    text="Guest memory with an AtomicBitmap: (a) C04's writer/reader op sequences over random chains at arbitrary page offsets, (b) whole requests through handle_message (READ via write/write_from/both/partial-then-error, READDIR(PLUS), GETXATTR, LOOKUP, error and oversize replies). Oracle: dirty page set == pages intersecting the modelled written ranges (both directions), model cross-checked by a byte diff of guest memory.",
    design="3/C17", note="4 KiB bitmap pages; written ranges for requests = reply message plus the bytes the filesystem produced.",
    technique="property-based testing (proptest) with a written-range model vs the dirty bitmap"),
+ "C12": dict(level="exploration",
+   text="Generated INIT requests (major, minor, flag words with/without the extended marker, extended payload present/absent/truncated) x filesystem option words against Server<MockFs>; the reply is decoded exactly as a Linux client decodes it (flags2 only with FUSE_INIT_EXT) and must equal capable & want, be laid out for the client's minor, follow the major-version rules and advertise write limits that fit the transport buffers. Layer level: Vfs (and, from the jail, PassthroughFs) with every configuration switch: advertised bits, backend-visible bits and behaviour (OPEN/OPENDIR ENOSYS iff negotiated), second INIT refused, DESTROY+INIT applies the new capabilities.",
+   design="3/C12", note="capable = announced bits restricted to FsOptions::all(); pre-7.23 reply layouts compare the low 32 bits only.",
+   technique="property-based testing (proptest): INIT generator + client-side decoder oracle + behavioural probes"),
+ "C19": dict(level="exploration",
+   text="Differential testing of persistence: generated histories are cut at a generated prefix, the VFS is saved, a fresh VFS restored and the live backends re-attached at their recorded indices; original and restored instance then receive the same probe script and the remaining suffix of the history; replies, backend call logs and mount indices must be identical. Previous-format (version 1) snapshots are produced through a cfg-guarded hook and must load and agree.",
+   design="3/C19", note="INIT with an empty capability word is not generated; version-1 snapshots via hook H3; backends re-created from a deep copy of their state at the cut.",
+   technique="differential property-based testing (proptest): original vs restored instance under an identical generated script"),
  "C02": dict(
    level="exploration",
    text="Generated search: every opcode x boundary/random valuations of every wire field (encoded through the kernel's own struct layouts) is served by Server<Arc<MockFs>> over both transports and the logged FileSystem call is compared with a protocol-level oracle table; a wrong method, swapped/dropped argument or missing flag test shows as a mismatch. Exploration is the right level: the domain is a huge product of field values with no finite abstraction the tools here could exhaust.",
